@@ -10,6 +10,8 @@
      chain "discard" : [discard(match_fields), join]   -- class D events are discarded by action 0
      chain "break"   : [breaking action, join]         -- class B events get ActionBreak from action 0
      chain "sel"     : [join with match_fields / do_if] -- class XO / XN events do not satisfy the join's selector
+     chain "post"    : [join, discard(match_fields)]   -- class S1d / Od = a start line / other line that the action
+                                                          AFTER the join discards (S1d: the whole flushed run is dropped)
 
    together with the DECLARATIVE statement of the property: the stream's events are split uniquely
    into non-joined events and maximal runs (a start followed by continuations), a run is also closed by a time-out;
@@ -34,7 +36,13 @@
                               (event.action = lastAction), not to the busy one.
      D15_BreakBypassesHold  : ActionBreak from an earlier action sends the event straight to the
                               output although a later action is holding an older event of the stream.
-   Named mechanism (TRUE = what the code does; FALSE = mutant, Join_mutsel.cfg, must violate StatementOK):
+   Named mechanisms (TRUE = what the code does; FALSE = mutant, must violate StatementOK: Join_mutsel.cfg,
+   Join_mutprop.cfg):
+     M_PropagateResetsBusyFirst : Propagate clears busyActions[holder] BEFORE it sends the flushed event through the
+                              remaining actions. If a later action stops that event, the nested processEvent sees
+                              nothing busy and returns into the suspended join.Do. In the mutant (reset after) the
+                              nested call goes to blockGet and pulls the NEXT events of the stream through the whole
+                              chain while join.Do of the current event is still suspended inside flush().
      M_BusyIgnoresSelector  : doActions evaluates an action's selector only while that action is NOT busy
                               ("!p.busyActions[index] && !event.IsTimeoutKind()"): an action that is collecting a
                               run is handed EVERY event of its stream, so a non-matching event ends the run like
@@ -48,7 +56,8 @@ CONSTANTS MaxLen1,        \* maximal sequence length, one template, chain "none"
           Pres,           \* chains explored, subset of {"none", "discard", "break"}
           D5_TimeoutToLastAction,
           D15_BreakBypassesHold,
-          M_BusyIgnoresSelector
+          M_BusyIgnoresSelector,
+          M_PropagateResetsBusyFirst
 
 VARIABLES cs,             \* the case: [nt, neg, M, pre, seq]
           i,              \* events of the stream consumed so far
@@ -60,9 +69,11 @@ VARIABLES cs,             \* the case: [nt, neg, M, pre, seq]
           lastAction,     \* lastAction returned by the last doActions
           out,            \* history: what reached the next stage, in order  <<[k, ids]>>
           dev,            \* history: deviations that were exercised
-          pc              \* run | done
+          pc,             \* run | done
+          stack, resume   \* only used by the mutant of M_PropagateResetsBusyFirst: join.Do frames suspended inside
+                          \* flush() -> Propagate -> nested processEvent; resume = the nested call has just returned
 
-vars == <<cs, i, to, toMis, isJoining, buff, curT, busy, blocked, lastAction, out, dev, pc>>
+vars == <<cs, i, to, toMis, isJoining, buff, curT, busy, blocked, lastAction, out, dev, pc, stack, resume>>
 
 -----------------------------------------------------------------------------
 (* classes *)
@@ -75,12 +86,14 @@ ClassesOf(nt, pre) == {"S1", "C1", "O", "NF", "NS"}
                       \cup (IF pre = "discard" THEN {"D"} ELSE {})
                       \cup (IF pre = "break" THEN {"B"} ELSE {})
                       \cup (IF pre = "sel" THEN {"XO", "XN"} ELSE {})
+                      \cup (IF pre = "post" THEN {"S1d", "Od"} ELSE {})
 \* what the join sees when it is handed an event that does not satisfy its selector
-Content(c) == IF c = "XO" THEN "O" ELSE IF c = "XN" THEN "NF" ELSE c
+Content(c) == CASE c = "XO" -> "O" [] c = "XN" -> "NF" [] c = "S1d" -> "S1" [] c = "Od" -> "O" [] OTHER -> c
+DropCls == {"S1d", "Od"}                 \* carry the mark the discarding action after the join matches
 MaxLenOf(nt, pre) == IF pre # "none" THEN MaxLenPre ELSE IF nt = 2 THEN MaxLen2 ELSE MaxLen1
 SeqsOver(S, n) == UNION {[1..m -> S] : m \in 0..n}
 
-JI == IF cs.pre \in {"none", "sel"} THEN 0 ELSE 1      \* index of the join in the chain
+JI == IF cs.pre \in {"none", "sel", "post"} THEN 0 ELSE 1      \* index of the join in the chain
 
 -----------------------------------------------------------------------------
 (* ---------------- the declarative statement ---------------- *)
@@ -134,6 +147,12 @@ ItemsFrom(seq, neg, T, ns, P, j) ==
 \* Output(seq, TO): what the next stage must have received, in order
 Output(seq, neg, T, ns) == ItemsFrom(seq, neg, T, ns, Vis(seq), 1)
 
+\* chain "post": the action after the join removes the events that carry its mark -- passed events and whole
+\* flushed runs (the joined event is the run's first event, with its other fields)
+Strip(seq) == [k \in 1..Len(seq) |-> IF seq[k] \in DropCls THEN Content(seq[k]) ELSE seq[k]]
+OutputX(seq, neg, T, ns) ==
+  SelectSeq(Output(Strip(seq), neg, T, ns), LAMBDA it : seq[it.ids[1]] \notin DropCls)
+
 \* "up to the configured size limit": the joined field is a prefix of the full concatenation; complete
 \* when the run fits, otherwise nothing below the limit is lost
 IsPrefix(s, t) == Len(s) <= Len(t) /\ SubSeq(t, 1, Len(s)) = s
@@ -154,25 +173,39 @@ Init ==
          /\ pre = "discard" => \E k \in 1..Len(seq) : seq[k] = "D"
          /\ pre = "break" => \E k \in 1..Len(seq) : seq[k] = "B"
          /\ pre = "sel" => \E k \in 1..Len(seq) : seq[k] \in {"XO", "XN"}
+         /\ pre = "post" => \E k \in 1..Len(seq) : seq[k] \in DropCls
          /\ cs = [nt |-> nt, neg |-> neg, M |-> M, pre |-> pre, seq |-> seq]
   /\ i = 0 /\ to = {} /\ toMis = {}
   /\ isJoining = FALSE /\ buff = <<>> /\ curT = 0
   /\ busy = FALSE /\ blocked = FALSE /\ lastAction = 0
   /\ out = <<>> /\ dev = {} /\ pc = "run"
+  /\ stack = <<>> /\ resume = FALSE
 
 Ev == cs.seq[i + 1]
 EvC == Content(Ev)
-CanStep == pc = "run" /\ i < Len(cs.seq)
+CanStep == pc = "run" /\ i < Len(cs.seq) /\ ~resume
 \* "if !p.busyActions[index] && !event.IsTimeoutKind() { if !p.isMatch(index, event) { continue } }"
 SelSkips == Ev \in {"XO", "XN"} /\ ~(M_BusyIgnoresSelector /\ busy)
 ReachesJoin == Ev \notin {"D", "B"} /\ ~SelSkips
 
-\* flush(): field := string(buff); controller.Propagate(initial)  (Propagate resets busyActions[join])
-Flushed(o) == Append(o, [k |-> "j", ids |-> buff])
-Passed(o) == Append(o, [k |-> "p", ids |-> <<i + 1>>])
+\* the discarding action after the join stops the events that carry its mark
+Dropped(id) == cs.pre = "post" /\ cs.seq[id] \in DropCls
+\* flush(): field := string(buff); controller.Propagate(initial): busyActions[join] is reset, then the event runs
+\* through the remaining actions (dropped there: the nested processEvent finds nothing busy and returns)
+Flushed(o) == IF Dropped(buff[1]) THEN o ELSE Append(o, [k |-> "j", ids |-> buff])
+Passed(o) == IF Dropped(i + 1) THEN o ELSE Append(o, [k |-> "p", ids |-> <<i + 1>>])
+StackSame == UNCHANGED <<stack, resume>>
+\* the event was passed on by the join (busy reset): a nested processEvent returns to its suspended caller
+ReturnsFromNested == stack' = stack /\ resume' = (stack # <<>>)
 
 \* isNextOK / nextCheck: the pattern of the run's template, negated if that template negates
 NextOK(c) == (c = CName(curT)) # cs.neg[curT]
+
+\* mutant of M_PropagateResetsBusyFirst: the next event makes the join flush a run that the later action drops
+SuspendCond ==
+  /\ ~M_PropagateResetsBusyFirst /\ cs.pre = "post" /\ CanStep
+  /\ isJoining /\ Dropped(buff[1])
+  /\ (EvC \in StartCls \/ EvC = "NF" \/ ~NextOK(EvC))
 
 (* action 0 = discard: Do returns ActionDiscard; doActions returns (false, 0); processEvent goes to
    blockGet iff some action is busy *)
@@ -180,6 +213,7 @@ PreDiscard ==
   /\ CanStep /\ cs.pre = "discard" /\ Ev = "D"
   /\ i' = i + 1 /\ lastAction' = 0 /\ blocked' = busy
   /\ UNCHANGED <<cs, to, toMis, isJoining, buff, curT, busy, out, dev, pc>>
+  /\ StackSame
 
 (* action 0 returns ActionBreak: doActions returns (true, 0), processSequence hands the event to the
    output; the held event stays held, the processor goes back to instantGet (not blockGet) *)
@@ -194,6 +228,7 @@ PreBreak ==
             /\ isJoining' = FALSE /\ busy' = FALSE
             /\ UNCHANGED dev
   /\ UNCHANGED <<cs, to, toMis, buff, curT, pc>>
+  /\ StackSame
 
 (* the join's selector does not match and is evaluated: the action is skipped, the event has passed all
    actions (doActions returns (true, l-1)) and goes to the output; the join's state is untouched *)
@@ -202,46 +237,55 @@ SelNotMatched ==
   /\ out' = Passed(out)
   /\ i' = i + 1 /\ lastAction' = JI /\ blocked' = FALSE
   /\ UNCHANGED <<cs, to, toMis, isJoining, buff, curT, busy, dev, pc>>
+  /\ StackSame
 
 (* join.Do, "node == nil": flush if joining, ActionPass *)
 DoNoField ==
   /\ CanStep /\ ReachesJoin /\ EvC = "NF"
+  /\ ~SuspendCond
   /\ out' = Passed(IF isJoining THEN Flushed(out) ELSE out)
   /\ isJoining' = FALSE /\ busy' = FALSE /\ blocked' = FALSE /\ lastAction' = JI
   /\ i' = i + 1
   /\ UNCHANGED <<cs, to, toMis, buff, curT, dev, pc>>
+  /\ ReturnsFromNested
 
 (* join.Do, "firstOK" (string value, start pattern of some template): flush the previous run, hold *)
 DoStart ==
-  /\ CanStep /\ Ev \in StartCls
+  /\ CanStep /\ EvC \in StartCls
+  /\ ~SuspendCond
   /\ out' = IF isJoining THEN Flushed(out) ELSE out
-  /\ buff' = <<i + 1>> /\ isJoining' = TRUE /\ curT' = TOf(Ev)
+  /\ buff' = <<i + 1>> /\ isJoining' = TRUE /\ curT' = TOf(EvC)
   /\ busy' = TRUE /\ blocked' = TRUE /\ lastAction' = JI          \* ActionHold
   /\ i' = i + 1
   /\ UNCHANGED <<cs, to, toMis, dev, pc>>
+  /\ StackSame
 
 (* join.Do, joining and isNextOK: append unless len(buff) >= max_event_size, ActionCollapse *)
 DoContinue ==
-  /\ CanStep /\ ReachesJoin /\ Ev \notin StartCls /\ EvC # "NF"
+  /\ CanStep /\ ReachesJoin /\ EvC \notin StartCls /\ EvC # "NF"
   /\ isJoining /\ NextOK(EvC)
   /\ buff' = IF cs.M = 0 \/ Len(buff) < cs.M THEN Append(buff, i + 1) ELSE buff
   /\ blocked' = TRUE /\ lastAction' = JI
   /\ i' = i + 1
   /\ UNCHANGED <<cs, to, toMis, isJoining, curT, busy, out, dev, pc>>
+  /\ StackSame
 
 (* join.Do, otherwise: flush if joining, ActionPass *)
 DoOther ==
-  /\ CanStep /\ ReachesJoin /\ Ev \notin StartCls /\ EvC # "NF"
+  /\ CanStep /\ ReachesJoin /\ EvC \notin StartCls /\ EvC # "NF"
+  /\ ~SuspendCond
   /\ ~(isJoining /\ NextOK(EvC))
   /\ out' = Passed(IF isJoining THEN Flushed(out) ELSE out)
   /\ isJoining' = FALSE /\ busy' = FALSE /\ blocked' = FALSE /\ lastAction' = JI
   /\ i' = i + 1
   /\ UNCHANGED <<cs, to, toMis, buff, curT, dev, pc>>
+  /\ ReturnsFromNested
 
 (* heartbeat -> tryUnblock puts a time-out event into the blocked stream; blockGet returns it;
    processEvent sets event.action = lastAction; doActions runs Do of that action without a match check *)
 Timeout ==
   /\ pc = "run" /\ blocked /\ i \notin to
+  /\ ~resume
   /\ to' = to \cup {i}
   /\ LET addr == IF D5_TimeoutToLastAction THEN lastAction ELSE JI IN
        IF addr = JI
@@ -254,13 +298,41 @@ Timeout ==
               /\ lastAction' = 0
               /\ UNCHANGED <<out, isJoining, busy, blocked>>
   /\ UNCHANGED <<cs, i, buff, curT, pc>>
+  /\ StackSame
 
 Finish ==
   /\ pc = "run" /\ i = Len(cs.seq)
   /\ pc' = "done"
   /\ UNCHANGED <<cs, i, to, toMis, isJoining, buff, curT, busy, blocked, lastAction, out, dev>>
+  /\ StackSame
 
-Next == PreDiscard \/ PreBreak \/ SelNotMatched \/ DoNoField \/ DoStart \/ DoContinue \/ DoOther \/ Timeout \/ Finish
+(* ---- only in the mutant of M_PropagateResetsBusyFirst ----
+   join.Do(e) is inside flush(): isJoining is already false, Propagate(run) -> the later action discards the run ->
+   busyActions[join] is still set -> the nested processEvent goes to blockGet for the next event of the stream *)
+MutSuspend ==
+  /\ SuspendCond
+  /\ isJoining' = FALSE
+  /\ stack' = Append(stack, [kind |-> IF EvC \in StartCls THEN "start" ELSE "pass", id |-> i + 1])
+  /\ i' = i + 1 /\ blocked' = TRUE /\ resume' = FALSE
+  /\ UNCHANGED <<cs, to, toMis, buff, curT, busy, lastAction, out, dev, pc>>
+
+(* the nested call has returned: Propagate resets busy (too late), flush() returns, the suspended join.Do goes on *)
+MutResume ==
+  /\ pc = "run" /\ resume /\ stack # <<>>
+  /\ LET f == stack[Len(stack)] IN
+       /\ stack' = SubSeq(stack, 1, Len(stack) - 1)
+       /\ IF f.kind = "start"
+            THEN \* p.initial = event; p.isJoining = true; ActionHold
+                 /\ buff' = <<f.id>> /\ isJoining' = TRUE /\ curT' = TOf(Content(cs.seq[f.id]))
+                 /\ busy' = TRUE /\ blocked' = TRUE /\ resume' = FALSE
+                 /\ UNCHANGED out
+            ELSE \* ActionPass: busy reset, the event goes on to the later action / the output
+                 /\ out' = IF Dropped(f.id) THEN out ELSE Append(out, [k |-> "p", ids |-> <<f.id>>])
+                 /\ busy' = FALSE /\ blocked' = FALSE /\ resume' = (Len(stack) > 1)
+                 /\ UNCHANGED <<buff, isJoining, curT>>
+  /\ UNCHANGED <<cs, i, to, toMis, lastAction, dev, pc>>
+
+Next == MutSuspend \/ MutResume \/ PreDiscard \/ PreBreak \/ SelNotMatched \/ DoNoField \/ DoStart \/ DoContinue \/ DoOther \/ Timeout \/ Finish
 
 Spec == Init /\ [][Next]_vars
 
@@ -281,11 +353,13 @@ Consumed == SubSeq(cs.seq, 1, i)
 
 \* C15 at every step: what has been output so far is exactly what the statement demands for the events
 \* and time-outs seen so far (flush happens BEFORE the triggering event is passed on, and AT a time-out)
-StatementOK == dev = {} => SeqOK(out, Output(Consumed, cs.neg, to, "pattern"), cs.M)
+\* (in the mutant of M_PropagateResetsBusyFirst an event may be in flight inside a suspended join.Do: judged once the
+\* frames have returned, or at the end)
+StatementOK == (dev = {} /\ (stack = <<>> \/ pc = "done")) => SeqOK(out, OutputX(Consumed, cs.neg, to, "pattern"), cs.M)
 
 \* with D5 exercised the output is still explained by the time-outs the join really received
 ExplainedByDeliveredTimeouts ==
-  "D15" \notin dev => SeqOK(out, Output(Consumed, cs.neg, to \ toMis, "pattern"), cs.M)
+  "D15" \notin dev => SeqOK(out, OutputX(Consumed, cs.neg, to \ toMis, "pattern"), cs.M)
 
 \* deviations only when the switch is on
 DevSwitched == /\ ("D5" \in dev => D5_TimeoutToLastAction)
@@ -297,15 +371,15 @@ DevSwitched == /\ ("D5" \in dev => D5_TimeoutToLastAction)
 \* alt / model are 0 when equal to exp
 Enc(items) == [n \in 1..Len(items) |-> IF items[n].k = "p" THEN items[n].ids[1] ELSE items[n].ids]
 ExportRec ==
-  LET e == Output(cs.seq, cs.neg, to, "pattern")
-      a == Output(cs.seq, cs.neg, to, "never")
+  LET e == OutputX(cs.seq, cs.neg, to, "pattern")
+      a == OutputX(cs.seq, cs.neg, to, "never")
   IN [nt |-> cs.nt, neg |-> cs.neg, M |-> cs.M, pre |-> cs.pre, seq |-> cs.seq,
       to |-> to, toMis |-> toMis, dev |-> dev,
       exp |-> Enc(e),
       alt |-> IF a = e THEN 0 ELSE Enc(a),
       model |-> IF out = e THEN 0 ELSE Enc(out),
       held |-> isJoining,                                   \* the transcription still holds a run
-      pend |-> Pending(cs.seq, cs.neg, to, "pattern")]     \* the statement still allows a run to be held
+      pend |-> Pending(Strip(cs.seq), cs.neg, to, "pattern")]     \* the statement still allows a run to be held
 
 Export == pc = "done" => PrintT(ToJson(ExportRec))
 
